@@ -80,6 +80,30 @@ CHECKS = {
                      "the failure and no later than max(back-off, breaker sleep); success resets; two losses within the threshold delay the next attempt by at least the sleep.",
                 note="Trusted: z3, VLoop (validated per path against the real asyncio scheduler), virtual utcnow. Durations are whole seconds; virtual time has no scheduling slack.",
                 technique="inductive-step SMT lemma over symbolically executed real methods + bounded symbolic execution of call sequences and of connect_loop with symbolic timing (z3)"),
+    "C07": dict(level="model_checking", design="§4 C07-C09",
+                text="Every documented Aidon layout (NO lists 1-3 one/three phase, SE list) plus every ordered selection of <= 2/3 elements: all register octets (u32/i16/u16, full range incl. sign) "
+                     "and all text characters are free at once, the scaler of each element in turn is free in -3..3; the real construct grammar and normalisation run on it; per path the solver "
+                     "proves keys == expected names and every value == register*10^scaler (exact, or its correctly rounded float), texts verbatim, manufacturer, frame == bare body.",
+                note="Trusted: z3, symx proxies and construct/Decimal/float models (every path replayed on the pristine decoder), the independent A-XDR walker and name tables in spec/cosem_ref.py. "
+                     "float(Decimal) assumed correctly rounded.",
+                technique="symbolic execution of the real construct grammar and normalisation with all value octets as z3 variables; comparison with an independent reference dictionary per path"),
+    "C08": dict(level="model_checking", design="§4 C07-C09",
+                text="All six Kaifa layouts (positional 1, 9, 13, 14, 18 items and the OBIS-tagged SE list) with every 32-bit register octet and every text character free at once: per path the "
+                     "solver proves the field name of every position/OBIS code, powers/energies == register, currents == correctly rounded register/1000, voltages == register/10 (round() picks the "
+                     "transmitted integer), texts verbatim, manufacturer, clock rule (list clock wins over APDU clock), frame == bare body.",
+                note="Trusted: z3, symx proxies incl. the relative-error float model and round() model (sat answers replayed with real floats; every path replayed on the pristine decoder), spec/cosem_ref.py.",
+                technique="symbolic execution of the real construct grammar and normalisation with all value octets as z3 variables; float kernels in the relative-error model (QF_NRA/LIRA)"),
+    "C09": dict(level="model_checking", design="§4 C07-C09",
+                text="All six captured Kamstrup layouts x meter type (free characters, first three == / != 685) x null-data padding variants, every register octet and text character free at once: "
+                     "currents == register/100 (/1000 for CT meters) to within 2 ulp, energies == register*10, others unchanged, texts verbatim, APDU clock for frames, frame == bare body otherwise.",
+                note="Trusted: as C08. 'Equal to register/100' is read to within 2 ulp (register*10**-2 is one rounding away from register/100).",
+                technique="symbolic execution of the real construct grammar and normalisation with all value octets as z3 variables; float kernel in the relative-error model"),
+    "C10": dict(level="model_checking", design="§4 C10",
+                text="The 12 octets of a COSEM date-time are free under the statement's validity constraints (valid calendar date 1..9999, time of day, hundredths 0..99|FF, deviation -720..720|8000, any "
+                     "day-of-week, any of the 256 status octets) in each syntactic position (APDU tagged/untagged; Aidon, Kaifa positional, Kaifa OBIS-tagged, Kamstrup clock elements): per path "
+                     "(hundredths FF?, deviation 8000?, status FF?) the solver proves civil fields, microseconds = hundredths*10000|0, offset = -deviation, naive iff unspecified. Complete over the domain.",
+                note="Trusted: z3, the datetime/timezone model (CPython's validation rules; every path replayed against the real datetime), construct bit-field model.",
+                technique="symbolic execution of the real construct DateTime grammar on 12 free octets; integer arithmetic decided by z3 per path"),
 }
 
 NOT_YET = {}
